@@ -23,6 +23,15 @@
 (* "c.n(args)" for a module c).  Its outcome is the function that          *)
 (* finally runs and the warnings issued on the way.                        *)
 (*                                                                         *)
+(* A space is an IDENTITY (the class object), not a name.  The name a      *)
+(* class carries (__name__ / __qualname__, constant ClassName) takes no    *)
+(* part in attribute resolution: Lin, Definer, Resolve and Exec below      *)
+(* never mention it.  Two distinct classes may carry the same name         *)
+(* ("class Database(biogeme.database.Database)" in a user's script, a      *)
+(* module loaded twice); a subclass that carries the name of its parent    *)
+(* and redefines the replacement is served by ITS OWN replacement like any *)
+(* other subclass (SameNameInv).                                           *)
+(*                                                                         *)
 (* The property:                                                           *)
 (*   ResolutionInv  for every receiver c and every alias n visible on c:   *)
 (*                  Call(c, n) runs the function Call(c, newname) runs,    *)
@@ -53,7 +62,9 @@ CONSTANTS
     Fn,         \* [function ids -> [kind, own, newname, captured, dispatch]]
     Spelling,   \* [names -> Seq(Nat)]: code points
     Renames,    \* set of <<old, new>>: documented renames (not a re-spelling)
-    KwRenames   \* set of [fid, space, fname, old, new, drop, params, varkw]
+    ClassName,  \* [Spaces -> STRING]: the __qualname__ of the class (NOT injective, never used to resolve)
+    KwRenames   \* set of [fid, space, fname, old, new, drop, params, varkw, pos]  (pos = rank of the rule in the
+                \* function's renaming table, 1..)
 
 VARIABLES pc, recv, attr, ran, warned
 vars == <<pc, recv, attr, ran, warned>>
@@ -243,6 +254,27 @@ StaticDispatchOK(c, n) == ~PassesReceiver(c, n) => Fn[Resolve(c, n)].dispatch = 
 StaticDispatch == CalledAlias => StaticDispatchOK(recv, attr)
 
 (***************************************************************************)
+(* Resolution is by MRO, never by class name.  NamesakeAncestors(c) = the  *)
+(* proper ancestors of c that carry the same name as c.  For a receiver    *)
+(* that has one and itself redefines the advertised name, the alias (which *)
+(* it inherits, the receiver being passed) must run what the receiver's    *)
+(* OWN dictionary binds: the first space of MRO[c] is c, whatever c is     *)
+(* called.  A wrapper that recognised "its" class by name and served it    *)
+(* with the captured function would violate this (and ResolutionInv).      *)
+(***************************************************************************)
+NamesakeAncestors(c) == {d \in Ancestors(c) \ {c} : ClassName[d] = ClassName[c]}
+Namesakes == {c \in Spaces \ Modules : NamesakeAncestors(c) # {}}
+SameNameOK(c, n) ==
+    LET new == NewOf(c, n) IN
+    (c \in Namesakes /\ PassesReceiver(c, n) /\ Defines(c, new)) =>
+        /\ Definer(c, new) = c                                         \* own dictionary first ...
+        /\ Outcome(c, n).ran = Exec(c, Table[c][new], TRUE, Fuel).ran    \* ... and that is what the old name runs
+SameNameInv == CalledAlias => SameNameOK(recv, attr)
+\* the spaces are identities: a name shared by two spaces does not merge their dictionaries or bases
+IdentityInv == (pc = "idle") =>
+    \A c \in Namesakes : \A d \in NamesakeAncestors(c) : c # d /\ MRO[c] # MRO[d] /\ MRO[c][1] = c
+
+(***************************************************************************)
 (* What is handed to the driver: one record per (receiver, alias) with     *)
 (* the spec's expectations and verdicts, and the linearisations.           *)
 (***************************************************************************)
@@ -262,14 +294,18 @@ PairRecord(c, n) ==
          replacement_ok |-> ReplacementOK(c, n, new),
          candidates |-> IF vis THEN Candidates(sp, n) ELSE Candidates(c, n),
          static_dispatch_ok |-> StaticDispatchOK(c, n),
-         own_ok |-> Fn[Resolve(c, n)].own = n]
+         own_ok |-> Fn[Resolve(c, n)].own = n,
+         printed_name |-> ClassName[c],
+         namesake_of |-> NamesakeAncestors(c),
+         same_name_ok |-> SameNameOK(c, n)]
 
 EmitInv == CalledAlias => PrintT(ToJson(PairRecord(recv, attr)))
 EmitMro == (pc = "idle") => PrintT(ToJson([kind |-> "mro", mro |-> MRO]))
 
 (***************************************************************************)
 (* Keyword renaming (deprecated_parameters).  A call gives keyword         *)
-(* arguments in some order; an obsolete keyword with a replacement is      *)
+(* arguments IN SOME ORDER (a sequence: Python hands **kwargs over in the  *)
+(* order of the call); an obsolete keyword with a replacement is           *)
 (* passed under the replacement's name with the same value and one         *)
 (* warning; an obsolete keyword without replacement is dropped with one    *)
 (* warning; everything else, positional arguments included, is untouched.  *)
@@ -329,6 +365,64 @@ KwModelInv == (pc = "idle") =>
         /\ \A p \in S : \E i \in 1..Len(g) : g[i][2] = p[2]                    \* values are given values
         /\ \A i \in 1..Len(g) : ~IsObsolete(r.fid, g[i][1]) =>                 \* live keywords arrive...
               \E p \in S : p[1] = g[i][1] /\ (p[2] = g[i][2] \/ \E j \in 1..Len(g) : j # i /\ IsObsolete(r.fid, g[j][1]))
+
+(***************************************************************************)
+(* ORDER.  A call is a SEQUENCE of keywords; what arrives is a SET: the    *)
+(* position of a keyword, in particular of an ignored one, changes nothing *)
+(* for the others.  KwOrdered(f) = every injective sequence (length        *)
+(* 2..KwMaxLen) over a pool of keywords of f that mixes the three kinds:   *)
+(*   - every obsolete keyword that is IGNORED (rule without replacement),   *)
+(*   - the first two obsolete keywords that are renamed (old style),       *)
+(*   - new-style keywords: the replacement of the LAST renaming rule (when *)
+(*     that rule's old keyword is not in the pool) and a keyword no rule   *)
+(*     mentions.                                                           *)
+(* No keyword of the pool is the replacement of another one, so exactly    *)
+(* one forwarded set is admissible: KwDirect, the order-free statement of  *)
+(* the documentation.  KwOrderInv: the recursive, order-following          *)
+(* KwForwardSets agrees with it for every order; removing an ignored       *)
+(* keyword from any position changes nothing else.                         *)
+(***************************************************************************)
+KwMaxLen == 5
+KwOther == "zz_other"
+KwDropped(f)  == {r \in KwOf(f) : r.drop}
+KwRenamed(f)  == {r \in KwOf(f) : ~r.drop}
+RankAmong(R, r) == Cardinality({q \in R : q.pos <= r.pos})
+KwOldPool(f)  == {r \in KwRenamed(f) : RankAmong(KwRenamed(f), r) <= 2}
+KwLastRule(f) == {r \in KwRenamed(f) : RankAmong(KwRenamed(f), r) = Cardinality(KwRenamed(f))} \ KwOldPool(f)
+RECURSIVE SeqOfRules(_)
+SeqOfRules(R) == IF R = {} THEN << >>
+                 ELSE LET r == CHOOSE q \in R : \A q2 \in R : q.pos <= q2.pos IN <<r>> \o SeqOfRules(R \ {r})
+Olds(sq) == [i \in 1..Len(sq) |-> sq[i].old]
+\* the pool, as a sequence: the value a keyword carries is its rank in the pool (3 is None for the driver)
+KwPool(f) == Olds(SeqOfRules(KwDropped(f))) \o Olds(SeqOfRules(KwOldPool(f)))
+             \o [i \in 1..Cardinality(KwLastRule(f)) |-> (CHOOSE r \in KwLastRule(f) : TRUE).new] \o <<KwOther>>
+InjSeqs(n, lo, hi) == UNION {{s \in [1..l -> 1..n] : \A i, j \in 1..l : i # j => s[i] # s[j]} : l \in lo..hi}
+KwOrdered(f) == LET pool == KwPool(f) IN
+                {[i \in 1..Len(s) |-> <<pool[s[i]], s[i]>>] : s \in InjSeqs(Len(pool), 2, KwMaxLen)}
+
+KwTarget(f, k) == IF ~IsObsolete(f, k) THEN k ELSE IF RuleFor(f, k).drop THEN "" ELSE RuleFor(f, k).new
+\* the documentation, order-free: every keyword that is not ignored arrives once, under its current name, with its value
+KwDirect(f, given) == {<<KwTarget(f, given[i][1]), given[i][2]>> : i \in {j \in 1..Len(given) : KwTarget(f, given[j][1]) # ""}}
+Without(sq, i) == [j \in 1..(Len(sq) - 1) |-> IF j < i THEN sq[j] ELSE sq[j + 1]]
+KwKind(f, k) == IF ~IsObsolete(f, k) THEN "new-style" ELSE IF RuleFor(f, k).drop THEN "ignored" ELSE "old-style"
+
+KwOrderInv == (pc = "idle") =>
+    \A f \in KwFns : \A g \in KwOrdered(f) :
+        /\ KwForwardSets(f, g) = {KwDirect(f, g)}                              \* one admissible set, the order-free one
+        /\ Cardinality(KwDirect(f, g)) = Cardinality({i \in 1..Len(g) : KwKind(f, g[i][1]) # "ignored"})
+        /\ \A i \in 1..Len(g) : KwKind(f, g[i][1]) = "ignored" =>               \* an ignored keyword, wherever it stands
+              /\ KwForwardSets(f, g) = KwForwardSets(f, Without(g, i))
+              /\ KwWarnings(f, g) = KwWarnings(f, Without(g, i)) + 1
+        /\ \A i \in 1..Len(g) : KwKind(f, g[i][1]) # "ignored" =>               \* every other keyword arrives with ITS value
+              <<KwTarget(f, g[i][1]), g[i][2]>> \in KwDirect(f, g)
+
+KwSeqRecord(f, g) ==
+    [kind |-> "kwseq", fid |-> f, given |-> g,
+     kinds |-> [i \in 1..Len(g) |-> KwKind(f, g[i][1])],
+     obsolete_given |-> {g[i][1] : i \in {j \in 1..Len(g) : IsObsolete(f, g[j][1])}},
+     forwarded_options |-> KwForwardSets(f, g),
+     warnings |-> KwWarnings(f, g)]
+EmitKwOrder == (pc = "idle") => \A f \in KwFns : \A g \in KwOrdered(f) : PrintT(ToJson(KwSeqRecord(f, g)))
 
 EmitKw == (pc = "idle") => \A r \in KwRenames : \A g \in KwCases(r) : PrintT(ToJson(KwRecord(r, g)))
 =============================================================================
